@@ -178,7 +178,50 @@ def run(E: Engine, rep: Report, tier: str) -> dict:
         dep = [x for x in sym.conj_of(l.cond) if mentions(x, "default_evaluation_times")]
         rep.check(not dep, "TABLE", f"QutipConfig._get_legacy_evaluation_times|observable-times-merged-for-every-default|{i_}", "merged whenever some observable has its own times",
                   f"the observables' own evaluation times are merged (`{sh(l.value, 80)}`) only under `{[sh(x, 80) for x in dep]}`: with another default (the final time, an explicit list) they never reach the solver, so those observables are silently evaluated at the default times only", E.where(glt, l.node))
-    rep.floor("TABLE", 22)
+    # the states the V2 backend hands to the observables are labelled with the basis the emulator works in
+    # (Hamiltonian.eigenbasis: the addressed states, plus "x" with leakage), not with the basis of the samples alone
+    v2run = E.fn("pulser_simulation.qutip_backend.QutipBackendV2.run")
+    qs = [l for l in S(E, v2run).calls("QutipState")]
+    if not qs:
+        raise AnalysisError("anchor: QutipBackendV2.run no longer builds QutipState objects")
+    labels = {arg(l, 1, "eigenstates") for l in qs}
+    from_ham = all(a_ is not None and mentions(a_, "_hamiltonian") and mentions(a_, "eigenbasis") for a_ in labels)
+    rep.check(from_ham, "TABLE", "QutipBackendV2.run|states-labelled-with-the-emulator-basis", "QutipState(..., eigenstates=<the emulator's Hamiltonian.eigenbasis>)",
+              f"QutipBackendV2.run labels the emulated states with `{[sh(a_, 60) if a_ is not None else '?' for a_ in labels]}`: the emulator's states live in Hamiltonian.eigenbasis (which includes the leakage state 'x' when with_leakage is set), so with leakage noise the V2 backend raises 'shape (3, 3) is incompatible with a system of 2-level qudits' where the legacy emulator runs", E.where(v2run, qs[0].node))
+    # one solver run suffices only when no noise is redrawn per run: the shortcut of QutipEmulator.run() and of
+    # QutipBackendV2.run() is taken under the same condition, and that condition excludes every noise type for which
+    # _noisy_runs() loops over fresh draws
+    leg_run = E.fn("pulser_simulation.simulation.QutipEmulator.run")
+    nz = E.fn("pulser_simulation.simulation.QutipEmulator._noisy_runs")
+
+    def _shortcut(f_):
+        cs = [l.cond for l in S(E, f_, inline=False).calls("_run_solver")]
+        if not cs:
+            raise AnalysisError(f"anchor: {f_.short} no longer calls _run_solver")
+        sim_cfg = sym.Pattern("self._sim_obj.config").term
+        return sym.subst(cs[0], lambda t: sym.Pattern("self.config").term if t == sim_cfg else None)
+
+    c_leg, c_v2 = _shortcut(leg_run), _shortcut(v2run)
+    rep.check(set(sym.conj_of(c_leg)) == set(sym.conj_of(c_v2)), "TABLE", "single-run-shortcut|legacy==V2", "QutipEmulator.run and QutipBackendV2.run take the single-run shortcut under the same condition",
+              f"the legacy emulator solves once under `{sh(c_leg, 200)}`, the V2 backend under `{sh(c_v2, 200)}`: for the configurations in between one of them averages over `runs` random draws and the other returns a single draw", E.where(leg_run))
+    redrawn = {x[2][1] for l in S(E, nz, inline=False).log for x in sym.subterms(l.cond) if x[0] == "cmp" and x[1] == "In" and x[2][0] == "const" and isinstance(x[2][1], str) and mentions(x[3], "noise")}
+    redrawn |= {x[2][1] for l in S(E, nz, inline=False).logged("test") for x in sym.subterms(l.value) if x[0] == "cmp" and x[1] == "In" and x[2][0] == "const" and isinstance(x[2][1], str) and mentions(x[3], "noise")}
+    if not redrawn:
+        raise AnalysisError("anchor: QutipEmulator._noisy_runs no longer tests noise types")
+    excluded = {x[2][1] for c_ in sym.conj_of(c_leg) for x in sym.subterms(c_) if x[0] == "cmp" and x[1] == "NotIn" and x[2][0] == "const" and mentions(x[3], "noise")}
+    for nt_ in sorted(redrawn):
+        rep.check(nt_ in excluded, "TABLE", f"single-run-shortcut|excludes-{nt_}", f"'{nt_}' (redrawn per run in _noisy_runs) rules the shortcut out", f"_noisy_runs redraws the '{nt_}' noise on every run, but QutipEmulator.run() takes the single-run shortcut without testing for it (excluded: {sorted(excluded)}): a configuration with '{nt_}' noise alone is solved once with a single random draw and `runs` is ignored", E.where(leg_run))
+    # a stored time is looked up at its own index: the legacy results answer get_state(t) / sample_state(t) with the
+    # CLOSEST stored time (argmin), or with a tolerance below half the 1 ns grid step -- "first time within one whole
+    # step" also matches the previous grid point whenever the float difference falls just under the step
+    git_ = E.fn("pulser_simulation.simresults.SimulationResults._get_index_from_time")
+    r_git = S(E, git_).ret
+    closest = r_git is not None and any(t[0] == "call" and t[1][0] == "attr" and t[1][2] in ("argmin", "nanargmin") for t in sym.subterms(r_git))
+    tol_def = git_.param_defaults().get("tol")
+    small_tol = isinstance(tol_def, ast.Constant) and isinstance(tol_def.value, float) and tol_def.value <= 0.5e-3
+    rep.check(closest or small_tol, "TABLE", "SimulationResults._get_index_from_time|closest-stored-time", "index of the closest stored time (argmin), or default tolerance <= half a grid step",
+              f"_get_index_from_time returns `{sh(r_git, 100)}` with default tolerance {ast.unparse(tol_def) if tol_def is not None else '?'} us = one full step of the 1 ns grid: the first stored time within a whole step can be the previous grid point, so a stored time is answered with its neighbour's state", E.where(git_))
+    rep.floor("TABLE", 27)
 
     # ---------------------------------------------------------------- SIB
     s1 = E.fn("pulser_simulation.simresults.CoherentResults.sample_state")
